@@ -32,6 +32,7 @@ type Program struct {
 	mapUpdated     map[*ssa.Global]bool
 	OutDir         string
 	mutators       map[*ssa.Function]map[string]bool
+	regionsCache   *regionAnalysis
 }
 
 // srcText returns the source text between two positions.
